@@ -158,17 +158,17 @@ func litmusTests() []litmus {
 				func() string { vatomic.StoreUint32(&flag32, 1); return "" },
 				func() string { _ = *vrt.R(&flag32); return "" }},
 			wantKind: "race"},
-		{name: "hand-over through an unbuffered channel", reset: func() { data = 0; ch = make(chan int) },
+		{name: "hand-over through an unbuffered channel", reset: func() { data = 0; ch = vchan.Make[int](0) },
 			threads: []func() string{
 				func() string { *vrt.W(&data) = 5; vchan.Send(ch, 1); return "" },
 				func() string { vchan.Recv1(ch); return str(*vrt.R(&data)) }},
 			wantKind: "", wantAll: true, want: []string{"", "5"}},
-		{name: "buffered channel used as a semaphore", reset: func() { c = 0; sem = make(chan struct{}, 1) },
+		{name: "buffered channel used as a semaphore", reset: func() { c = 0; sem = vchan.Make[struct{}](1) },
 			threads: func() []func() string {
 				f := func() string { vchan.Send(sem, struct{}{}); *vrt.RW(&c) += 1; vchan.Recv1(sem); return "" }
 				return []func() string{f, f}
 			}(), wantKind: "", wantAll: true},
-		{name: "producer closes, consumer ranges", reset: func() { ch = make(chan int, 1) },
+		{name: "producer closes, consumer ranges", reset: func() { ch = vchan.Make[int](1) },
 			threads: []func() string{
 				func() string {
 					for i := 1; i <= 3; i++ {
@@ -189,13 +189,13 @@ func litmusTests() []litmus {
 					return str(sum)
 				}},
 			wantKind: "", wantAll: true, want: []string{"", "6"}},
-		{name: "completion token taken by the wrong caller", reset: func() { data = 0; ch = make(chan int, 2) },
+		{name: "completion token taken by the wrong caller", reset: func() { data = 0; ch = vchan.Make[int](2) },
 			threads: []func() string{
 				func() string { *vrt.W(&data) = 1; vchan.Send(ch, 1); return "" },
 				func() string { vchan.Send(ch, 2); return "" },
 				func() string { vchan.Recv1(ch); _ = *vrt.R(&data); return "" }},
 			wantKind: "race", want: []string{"", "", ""}, cachedOnly: true},
-		{name: "receive with nobody ever sending", reset: func() { ch = make(chan int) },
+		{name: "receive with nobody ever sending", reset: func() { ch = vchan.Make[int](0) },
 			threads: []func() string{
 				func() string { vchan.Recv1(ch); return "" },
 				func() string { return "" }},
